@@ -337,7 +337,12 @@ static void trsm_case(const vh_args_t *a, int variant, int entry) {
   mzd_t *T = vh_mk(n, n, -1);
   fill_tri(T, variant == 0 || variant == 3);
   mzd_t *B = left ? vh_mk(n, w, -1) : vh_mk(w, n, -1);
-  vh_fill_kind(B, vh_pick((int[]){0, 0, 0, 1, 6}, 5));
+  vh_fill_kind(B, vh_pick((int[]){0, 0, 0, 1, 6, 3}, 6));
+  /* right-hand sides that vanish in whole words for whole blocks of rows: [0 | C] and [C | 0 | C'] */
+  if (w > 64 && vh_randint(0, 4) == 0) {
+    int wz = vh_randint(0, (B->ncols - 1) / 64 > 0 ? (B->ncols - 1) / 64 - 1 : 0);
+    for (int i = 0; i < B->nrows; i++) B->data[(size_t)i * B->rowstride + wz] = 0;
+  }
   static const int cuts[] = {0, 0, 64, 128};
   int cutoff = cuts[vh_randint(0, 3)], k = vh_randint(0, 8);
   static const char *nm[] = {"trsm_upper_right", "trsm_lower_right", "trsm_lower_left", "trsm_upper_left"};
@@ -443,6 +448,23 @@ static void inv_case(const vh_args_t *a, int op) {
   vh_free_all();
 }
 
+/* Four-Russians inversion for every residue of n modulo the elimination block width (6k = 36 for 128 <= n < 512): the last
+ * block then holds every number of pivots 1 .. 36, i.e. every table count and every split of the tables */
+static void inv_sweep_case(int n) {
+  vh_ev_t e;
+  mzd_t *A = vh_mk(n, n, -1), *R = NULL;
+  if (vh_randint(0, 2)) vh_fill_invertible(A); else vh_fill_sparse_invertible(A);
+  vh_begin(&e, "inv_m4ri");
+  vh_pi(&e, "k", 0);
+  vh_opnd(&e, "D", 'o', NULL); vh_opnd(&e, "A", 'i', A);
+  vh_pre(&e);
+  if (VH_CALL(&e)) R = mzd_inv_m4ri(NULL, A, 0);
+  VH_END(&e);
+  if (!e.die) vh_result(&e, "R", R);
+  vh_post(&e);
+  vh_free_all();
+}
+
 int fam_inv(const vh_args_t *a) {
   int ncases = a->cases ? a->cases : (a->tier ? 2400 : 400);
   for (long idx = 0; idx < ncases; idx++) {
@@ -450,6 +472,16 @@ int fam_inv(const vh_args_t *a) {
     vh_case_seed(a, idx);
     VH_CASE(idx)
     inv_case(a, (int)(idx % 4));
+    VH_CASE_END
+  }
+  if (strstr(a->extra, "nosweep")) return 0;
+  long sidx = ncases;
+  for (int n = 128; n < 128 + 36 + 8; n++, sidx++) {
+    if (!a->tier && (int)((n + a->seed) % 3) != 0) continue;      /* quick: a third of the residues, rotating with the seed */
+    if (!VH_SHARD(a, sidx)) continue;
+    vh_case_seed(a, sidx);
+    VH_CASE(sidx)
+    inv_sweep_case(n);
     VH_CASE_END
   }
   return 0;
